@@ -325,6 +325,8 @@ func runC14(c *Check) {
 		c.lockset("R5", "state", "TxTracker", "mutex", map[*types.Var]bool{ft: true}, []string{"state"}, nil, 8)
 	}
 
+	c.ruleNoUseAfterTransmit("R7", "state.(*TxTracker).Check")
+
 	// ---- R6 every filled getdata is transmitted
 	if fn := c.Fn("R6", "state.(*TxTracker).Check"); fn != nil {
 		var tx []ssa.Instruction
